@@ -1,29 +1,12 @@
 """C10 harnesses: reported locations are the true line/column."""
 from __future__ import annotations
 
-from vf import assume, verdict, forked
+from vf import assume, fixlen, verdict, forked
+from vf import stubs
+from vf.oracles.spec_location import spec_location
 
 from graphql.language import Source
 from graphql.language.location import get_location
-
-
-def spec_location(body: str, pos: int):
-    """Spec: line = 1 + #line terminators (CRLF | LF | CR) before pos; column from last."""
-    line = 1
-    last_start = 0
-    i = 0
-    while i < pos:
-        c = body[i]
-        if c == "\r":
-            if i + 1 < len(body) and body[i + 1] == "\n":
-                i += 1
-            line += 1
-            last_start = i + 1
-        elif c == "\n":
-            line += 1
-            last_start = i + 1
-        i += 1
-    return line, pos + 1 - last_start
 
 
 def get_location_matches_spec(body: str, pos: int, *, maxlen: int) -> bool:
@@ -39,19 +22,244 @@ def get_location_matches_spec(body: str, pos: int, *, maxlen: int) -> bool:
     return verdict(got == spec_location(body, pos))
 
 
+from graphql.error import GraphQLError, GraphQLSyntaxError
+from graphql.language import Lexer, SourceLocation, TokenKind, parse, print_source_location
+
+from harness.lexer_common import first_char_class
+
+
+def spec_lines(body: str):
+    """Lines as the specification delimits them (CR LF | LF | CR)."""
+    out = []
+    cur = ""
+    i = 0
+    while i < len(body):
+        c = body[i]
+        if c == "\r":
+            if i + 1 < len(body) and body[i + 1] == "\n":
+                i += 1
+            out.append(cur)
+            cur = ""
+        elif c == "\n":
+            out.append(cur)
+            cur = ""
+        else:
+            cur += c
+        i += 1
+    out.append(cur)
+    return out
+
+
+def _walk_tokens(body: str):
+    """(tokens, error) using the lexer's own line bookkeeping (read_next_token chain)."""
+    lx = Lexer(Source(body))
+    toks = []
+    pos = 0
+    try:
+        while True:
+            t = lx.read_next_token(pos)
+            toks.append(t)
+            if t.kind == TokenKind.EOF:
+                return toks, None
+            pos = t.end
+    except GraphQLSyntaxError as e:
+        return toks, e
+
+
+def token_line_column(s: str, *, length: int, cls: int) -> bool:
+    """Every token's line/column and every syntax error's location equal the spec's."""
+    stubs.fast_syntax_error()
+    assume(len(s) == length)
+    if length:
+        assume(first_char_class(s[0]) == cls)
+    try:
+        toks, err = _walk_tokens(s)
+    except Exception:
+        return verdict(False)
+    for t in toks:
+        if (t.line, t.column) != spec_location(s, t.start):
+            return verdict(False)
+    if err is not None:
+        if not err.positions or not err.locations:
+            return verdict(False)
+        loc = err.locations[0]
+        if (loc.line, loc.column) != spec_location(s, err.positions[0]):
+            return verdict(False)
+    return verdict(True)
+
+
+def block_string_bookkeeping(a: str, b: str, *, alen: int, blen: int) -> bool:
+    """Line terminators inside a block string and after it: following tokens/errors are located
+    correctly (the lexer adjusts line and line_start when it leaves the block string)."""
+    stubs.fast_syntax_error()
+    assume(len(a) == alen and len(b) == blen)
+    a = fixlen(a, alen)
+    b = fixlen(b, blen)
+    for ch in a:
+        assume(ch != '"' and ch != "\\" and not ("\ud800" <= ch <= "\udfff"))
+    for ch in b:
+        assume(ch in " \n\r\t,")
+    body = '{ f(x: """' + a + '"""' + b + "y ?"
+    try:
+        toks, err = _walk_tokens(body)
+    except Exception:
+        return verdict(False)
+    if err is None or len(toks) < 6:
+        return verdict(False)
+    for t in toks:
+        if (t.line, t.column) != spec_location(body, t.start):
+            return verdict(False)
+    loc = err.locations[0]
+    return verdict((loc.line, loc.column) == spec_location(body, err.positions[0]))
+
+
+def render_location(body: str, pos: int, ol: int, oc: int, *, length: int) -> bool:
+    """print_source_location never fails, prints name:line:column with the location offset
+    applied (column shifted on line 1 only) and excerpts the named line with a caret."""
+    assume(len(body) == length)
+    assume(0 <= pos <= len(body))
+    assume(not (0 < pos < len(body) and body[pos - 1] == "\r" and body[pos] == "\n"))
+    ol = forked(ol, 1, 4)
+    oc = forked(oc, 1, 4)
+    try:
+        src = Source(body, "n", SourceLocation(ol, oc))
+        loc = src.get_location(pos)
+        out = print_source_location(src, loc)
+    except Exception:
+        return verdict(False)
+    line, col = spec_location(body, pos)
+    line_num = line + ol - 1
+    col_num = col + (oc - 1 if line == 1 else 0)
+    rows = out.split("\n")
+    if rows[0] != "n:" + str(line_num) + ":" + str(col_num):
+        return verdict(False)
+    expected = spec_lines(body)[line - 1]
+    if line == 1:
+        expected = " " * (oc - 1) + expected
+    want = str(line_num) + " |" + ((" " + expected) if expected else "")
+    caret = "| " + " " * (col_num - 1) + "^"
+    for k in range(1, len(rows) - 1):
+        if rows[k].lstrip(" ") == want and rows[k + 1].lstrip(" ") == caret:
+            return verdict(True)
+    return verdict(False)
+
+
+def render_long_line(c: str, m: int, col: int) -> bool:
+    """The 'minified document' branch (> 120 columns): never fails for any column."""
+    assume(len(c) == 1)
+    c = c[0]
+    assume(c != "\n" and c != "\r")
+    m = forked(m, 0, 5)
+    n = [119, 120, 121, 161, 241][m]
+    body = "a" * n + c
+    assume(0 <= col <= len(body))
+    try:
+        src = Source(body)
+        out = print_source_location(src, src.get_location(col))
+    except Exception:
+        return verdict(False)
+    return verdict(out.split("\n")[0] == "GraphQL request:1:" + str(col + 1) and "^" in out)
+
+
+def error_rendering(s: str, *, length: int, cls: int) -> bool:
+    """str(), .formatted and .locations of real syntax errors never fail and name the spec location."""
+    assume(len(s) == length)
+    if length:
+        assume(first_char_class(s[0]) == cls)
+    try:
+        parse(s)
+        return verdict(True)
+    except GraphQLSyntaxError as e:
+        err = e
+    except Exception:
+        return verdict(False)
+    try:
+        text = str(err)
+        f = err.formatted
+        locs = err.locations
+    except Exception:
+        return verdict(False)
+    line, col = spec_location(s, err.positions[0])
+    if f.get("locations") != [{"line": line, "column": col}]:
+        return verdict(False)
+    if (locs[0].line, locs[0].column) != (line, col):
+        return verdict(False)
+    return verdict(("GraphQL request:" + str(line) + ":" + str(col)) in text)
+
+
+ERR_DOCS = ["{ a\n  b }", "query Q {\r\n  int(x: $u)\r  zz\n}", "{ nn { x } }\n"]
+
+
+def validation_error_locations(p: int, t: int, *, doc: int) -> bool:
+    """Validation / execution errors on documents whose line terminator at a symbolic
+    position is replaced by another terminator class keep spec-conform locations."""
+    from graphql import graphql_sync
+    from harness.C01_total import SCHEMA
+
+    text = ERR_DOCS[doc]
+    p = forked(p, 0, len(text))
+    assume(text[p] in "\n\r ")
+    t = forked(t, 0, 5)
+    rep = ["\n", "\r", "\r\n", " ", "\u2028"][t]
+    body = text[:p] + rep + text[p + 1 :]
+    try:
+        r = graphql_sync(SCHEMA, body)
+        for e in r.errors or []:
+            str(e)
+            e.formatted
+            if e.nodes:
+                for node, loc in zip([n for n in e.nodes if n.loc], e.locations or []):
+                    if (loc.line, loc.column) != spec_location(body, node.loc.start):
+                        return verdict(False)
+    except Exception:
+        return verdict(False)
+    return verdict(True)
+
+
 BOUNDS = {
-    "quick": ["Source.get_location: body <= 3 code points over all of Unicode, every offset 0..len"],
-    "thorough": ["Source.get_location: body <= 4 code points over all of Unicode, every offset 0..len"],
+    "quick": [
+        "Source.get_location: every body <= 3 code points over all of Unicode, every offset 0..len",
+        "token line/column + syntax error location: every string of exactly 0..2 code points (one cell per first-char class)",
+        "block string bookkeeping: template '{ f(x: \"\"\"' + a + '\"\"\"' + b + 'y ?' with a of exactly 0..2 arbitrary scalar chars, b of 0..1 ignored chars",
+        "print_source_location: every body of exactly 0..2 code points, every offset, location offsets (line, column) in [1,3]^2; > 120 column branch at lengths 120..242 with any last char and any column",
+        "str()/formatted/locations of real syntax errors on every string of exactly 0..2 code points",
+        "validation/execution error locations: 3 documents x every line-terminator position x 5 replacement terminators",
+    ],
+    "thorough": ["as quick with get_location <= 4, token line/column <= 3, block string a <= 3, render <= 3"],
 }
-ASSUMPTIONS = ["offsets that split a CR LF pair are excluded (no token or error starts there)"]
+ASSUMPTIONS = [
+    "offsets that split a CR LF pair are excluded (no token or error starts there)",
+    "location offsets beyond (3,3) are outside the rendering claim (the arithmetic is linear in the offset)",
+    "token/bookkeeping harnesses replace the syntax error *description text* by a constant; the rendering harnesses use the real class",
+]
 
 
 def obligations(tier):
-    n = 3 if tier == "quick" else 4
-    return [dict(fn="get_location_matches_spec", cell={"maxlen": n}, budget_s=120 if tier == "quick" else 900)]
+    th = tier == "thorough"
+    B = 900 if th else 120
+    obs = [dict(fn="get_location_matches_spec", cell={"maxlen": 4 if th else 3}, budget_s=B)]
+    for n in range(0, (3 if th else 2) + 1):
+        for cls in range(6 if n else 1):
+            obs.append(dict(fn="token_line_column", cell=dict(length=n, cls=cls), budget_s=B))
+            obs.append(dict(fn="error_rendering", cell=dict(length=n, cls=cls), budget_s=B))
+        obs.append(dict(fn="render_location", cell=dict(length=n), budget_s=B))
+    for alen in range(0, (3 if th else 2) + 1):
+        for blen in (0, 1):
+            obs.append(dict(fn="block_string_bookkeeping", cell=dict(alen=alen, blen=blen), budget_s=B))
+    obs.append(dict(fn="render_long_line", cell={}, budget_s=B))
+    for d in range(len(ERR_DOCS)):
+        obs.append(dict(fn="validation_error_locations", cell=dict(doc=d), budget_s=B))
+    return obs
 
 
 def corpus():
-    # pinned by tests/language/test_source.py / test_location.py style expectations
     yield "get_location_matches_spec", {"maxlen": 99}, {"body": "a\nb\r\nc\rd", "pos": 8}
     yield "get_location_matches_spec", {"maxlen": 99}, {"body": "{\n  field\n}", "pos": 4}
+    yield "token_line_column", dict(length=5, cls=5), dict(s="{\n a?")
+    yield "block_string_bookkeeping", dict(alen=2, blen=1), dict(a="\r\n", b="\n")
+    yield "render_location", dict(length=5), dict(body="a\n b}", pos=4, ol=2, oc=3)
+    yield "render_location", dict(length=3), dict(body="a\n\n", pos=3, ol=1, oc=1)
+    yield "render_long_line", {}, dict(c="?", m=2, col=121)
+    yield "error_rendering", dict(length=3, cls=5), dict(s="{\n?")
+    for d in range(len(ERR_DOCS)):
+        yield "validation_error_locations", dict(doc=d), dict(p=ERR_DOCS[d].index("\n"), t=2)
